@@ -15,6 +15,7 @@ CONSTANTS
   Record = FALSE
   MaxSteps = 0
   Sample = FALSE
+  Variant = "base"
 INVARIANT QuotaExact
 INVARIANT CostExact
 INVARIANT NeverLockedOut
